@@ -145,7 +145,8 @@ CLAIMED = {
                 'equal the per-task monotone reference automaton applied '
                 'independently of the rest of the batch (batch isolation), '
                 'manager-level and task-level callbacks must agree.'
-                " A pilot's end handled next to a task notification (two threads, engine B, all schedules within the delay bound) and callbacks which change the callback registry during notification are explored as well.",
+                " A pilot's end handled next to a task notification (two threads, engine B, all schedules within the delay bound) and callbacks which change the callback registry during notification are explored as well."
+                ' A callback may also leave the interpreter (sys.exit): the other observers still see every announcement.',
   'note'      : 'Reference automaton A.3 is trusted; two tasks; bulk-callback '
                 'mode is not explored.',
  },
@@ -319,7 +320,8 @@ CLAIMED = {
                 'sequences through the real _pilot_state_cb: own non-final '
                 'tasks become FAILED naming the pilot, every other task keeps '
                 'state/exception, and exactly the changed tasks are published.'
-                ' Thread level (engine B): the pilot-end handler races with a task notification applied by the state subscriber thread (delay bound 1, 2 for DONE); sequential orders on the real code are the reference; what is published must agree with the end state.',
+                ' Thread level (engine B): the pilot-end handler races with a task notification applied by the state subscriber thread (delay bound 1, 2 for DONE); sequential orders on the real code are the reference; what is published must agree with the end state.'
+                ' Tasks bound by the client side scheduler are driven through the real _assign_pilot()/advance() publications (the client sees what the components really publish); the handler is attached through the real add_pilots() (separate / bulk, with application pilot callbacks which raise or exit) and reached through the real pilot notification path.',
   'note'      : 'Pilots are real Pilot facades whose state is set by the '
                 'harness.',
  },
@@ -344,7 +346,8 @@ CLAIMED = {
                 'killme.signal and the published state name the first cause; '
                 'the last stanza of bootstrap_0.sh is executed by bash on the '
                 'file.'
-                " (c) the real PMGRLaunchingComponent.work() over bulks of 1-3 pilots x failing targets x {launcher, staging} failures; (d) control-thread pilot_activate vs state-thread notification (engine B); (e) the agent's stopping thread vs its work-loop thread (engine B).",
+                " (c) the real PMGRLaunchingComponent.work() over bulks of 1-3 pilots x failing targets x {launcher, staging} failures; (d) control-thread pilot_activate vs state-thread notification (engine B); (e) the agent's stopping thread vs its work-loop thread (engine B)."
+                ' A cancel request which precedes its pilot by more than one bulk is honoured.',
   'note'      : 'A.4 is deliberately weaker than the task automaton (repeats '
                 'allowed); the 1900-line bootstrapper is not executed beyond '
                 'its last stanza.',
@@ -462,7 +465,8 @@ CLAIMED = {
                 'space is enumerated completely, which is what the '
                 '"for every description" quantifier needs and a handful of '
                 'unit tests cannot give.'
-                ' Legal values of 40 attributes survive verify() unchanged; a changed description verifies like a fresh one; function tasks carry the callable as it is at encoding time; reserved keyword names.',
+                ' Legal values of 40 attributes survive verify() unchanged; a changed description verifies like a fresh one; function tasks carry the callable as it is at encoding time; reserved keyword names.'
+                ' Slot lists which mix converted and unconverted slots are converted slot by slot.',
   'note'      : 'Trusted: the reference tables (deprecated->replacement, '
                 'required attribute per mode) transcribed from the '
                 'TaskDescription documentation; equality of descriptions is '
